@@ -24,13 +24,13 @@ PROP = dict(
                "principal or trigger differs afterwards was named by an item whose guard - health <= safety factor (equal liquidates, one ulp above does not), lp price <= "
                "stop-loss, oracle price at/beyond stop-loss or take-profit for its side, nil triggers never - held at that moment; same for every owner balance; a position whose "
                "items all evaluate to false survives unchanged; a user close touches only the position stored under the sender; an accepted open passed `health > safety "
-               "factor` on the value the handler computed. The FULL open statement (health of the stored position in the resulting state > safety factor) is REFUTED for "
-               "perpetual on the code as it is (C10_open_healthy_refuted, observed numbers; harness signature C10:open-unhealthy:perpetual) and proved for the repaired step "
-               "(C10_open_healthy_fixed, C10_open_eq_fixed_off_site). Tied to the code by replaying every observed close-positions tx, sweep, open and user close of generated "
+               "factor` on the value the handler computed. The FULL open statement (health of the stored position in the resulting state > safety factor) is proved for "
+               "perpetual on the code as it is since fix: ba85cca (C10_open_healthy_perpetual, also over histories) and REFUTED for the code before it "
+               "(C10_open_healthy_prefix_refuted, observed numbers; harness signature C10:open-unhealthy:perpetual); for leveragelp it holds whenever the compared value is the final health (C10_open_healthy_partial). Tied to the code by replaying every observed close-positions tx, sweep, open and user close of generated "
                "histories on the real app through the model (vm_compute) and diffing positions, balances and verdicts; the property's own predicate is evaluated on the real "
                "state with independently recomputed health at the moment of every item.",
-    level_note="Trusted: Coq kernel+VM; the Go harness; health/price/settlement values come from the implementation's own functions. Open statement: partial on the code as it "
-               "is (refuted for perpetual at the boundary window between the checked and the final health).",
+    level_note="Trusted: Coq kernel+VM; the Go harness; health/price/settlement values come from the implementation's own functions. Open statement: full for perpetual, partial for leveragelp "
+               "(its handler compares the health computed right after the pool join; the harness checks on every observed open that it equals the final health).",
     assumptions=["single oracle pool uusdc/uatom (the fixture's) for both modules", "C10_open_healthy_partial assumes the value compared by the handler is the final health "
-                 "(true for leveragelp; false for perpetual, see C10_open_healthy_refuted)"],
+                 "(observed true for leveragelp on every open of every run; perpetual re-checks the final health itself)"],
 )
